@@ -121,6 +121,21 @@ Definition restore (out_exists : bool) (plan : option (list pinfo))
   end.
 End Restore.
 
+(** ---- finding F7: the one place where the decoder neither errs nor succeeds ---
+    [ltx.Decoder.Close] (ltx v0.5.2 decoder.go) slurps the bytes that follow the
+    page-block end marker and slices [remainingBytes[:len(remainingBytes)-ChecksumSize]]
+    BEFORE any length check; with fewer than [ChecksumSize] = 8 bytes left the
+    slice bound is negative and the Go runtime panics — inside the goroutine
+    Restore started for the compactor, so Restore neither returns an error nor
+    completes.  [restore] above does not model this (its result type has no
+    "panic"); the slice computation is modelled here and the gap is stated as
+    [decoder_close_never_panics_refuted] in ResProofs.v. *)
+Definition ltx_checksum_size : nat := 8.
+
+(** [None] = runtime panic (slice bounds out of range); [Some n] = [n] bytes are fed to the hash *)
+Definition decoder_close_hashed_len (remaining : nat) : option nat :=
+  if Nat.ltb remaining ltx_checksum_size then None else Some (remaining - ltx_checksum_size).
+
 (** ---- the tiny file system the operations act on ---------------------------- *)
 
 Inductive tmpstate := TAbsent | TPartial | TComplete (synced : bool).
